@@ -1,6 +1,6 @@
 (* C14 — no side effects; results independent of call history and of co-computed results. *)
 From Coq Require Import String List Bool.
-From Flox Require Import TokensGen Tokens C14Proofs.
+From Flox Require Import TokensGen Tokens EffIR EffLaw Effects C14Proofs.
 Import ListNotations.
 
 (* over the ingredients extracted from the CURRENT source (T3): every parameter of dask_groupby_agg
@@ -28,6 +28,40 @@ Theorem C14_memo_history_independent :
     forall (f : A -> V) calls c, MInv A T V tokA teqb f c -> snd (mrun A T V tokA teqb f c calls) = map f calls.
 Proof. exact memo_history_independent. Qed.
 
+(* ---- "never modifies its arguments ... nor the library's registry" ----
+   T4 regenerates, from the AST of the CURRENT source, the alias/effect IR of every function reachable from the public entry
+   points (groupby_reduce, groupby_scan, the rechunk helpers, xarray_reduce and the xarray rechunk wrappers,
+   _initialize_aggregation) with a points-to certificate; module-level state (the registry AGGREGATIONS, caches, constants) is
+   the last pseudo-parameter of every function.  The certificate is accepted by the verified checker ... *)
+Theorem C14_api_effect_certificates_check : check_all api_functions = true.
+Proof. exact C14Proofs.api_certs_ok. Qed.
+
+(* ... every entry point is in the list, and is declared - and checked - to write into none of its parameters, the
+   module-level pseudo-parameter included *)
+Theorem C14_api_entry_points_write_nothing :
+  (forall r, In r api_roots -> exists f, In f api_functions /\ f_name f = r) /\
+  (forall f, In f api_functions -> existsb (fun s => match s with SParam x i => String.eqb x globals_param && Nat.eqb (S i) (f_nparams f) | _ => false end) (f_body f) = true) /\
+  (forall f, In f api_functions -> In (f_name f) api_roots -> f_stores f = []).
+Proof.
+  split; [|split].
+  - intros r Hr. destruct C14Proofs.api_roots_present as [H _]. rewrite forallb_forall in H. specialize (H r Hr).
+    unfold C14Proofs.root_present_b in H. apply existsb_exists in H. destruct H as [f [Hf He]]. exists f. split; [exact Hf|].
+    now apply String.eqb_eq in He.
+  - intros f Hf. pose proof C14Proofs.globals_is_a_parameter as H. rewrite forallb_forall in H. exact (H f Hf).
+  - exact C14Proofs.api_roots_pure.
+Qed.
+
+(* by the soundness of the checker (Der = every alias fact derivable from the statements in any order), such a function
+   never stores into an object that may be one of its arguments or part of the module-level state *)
+Theorem C14_no_store_into_arguments_or_registry :
+  forall S f, check_fn S f = true -> f_stores f = [] ->
+  forall x, (In (SStore x) (f_body f) \/ exists a, In (SStoreAttr x a) (f_body f)) ->
+  forall i, ~ Der S f (FP x (LParam i)).
+Proof. exact checked_fn_never_stores_into_params. Qed.
+
 Print Assumptions C14_names_cover_ingredients.
+Print Assumptions C14_api_effect_certificates_check.
+Print Assumptions C14_api_entry_points_write_nothing.
+Print Assumptions C14_no_store_into_arguments_or_registry.
 Print Assumptions C14_equal_keys_equal_tasks.
 Print Assumptions C14_memo_history_independent.
